@@ -18,7 +18,7 @@ def gen_config(rng, tier):
         ops[k] *= rng.choice([0.5, 1.0, 2.0])
     faults = ["scribble"] if rng.random() < 0.85 else []
     return {"n": n, "steps": (lambda x: min(x, 14) if n >= 6 else x)(rng.randrange(6, 40) if tier != "thorough" else rng.randrange(6, 90)), "ops": ops, "faults": faults, "flags": ["c17"],
-            "backend": "torch" if rng.random() < 0.15 else "numpy"}
+            "backend": "torch" if rng.random() < 0.3 else "numpy"}
 
 
 # reach guard: a full-size batch in which one of these never fired means the workload or the
